@@ -8,11 +8,11 @@
     * the set's TTL is a lower bound of those records' TTLs and is one of them; its class is the question's;
     * a CNAME step consumes exactly one answer-section CNAME record of the current name and class, so the
       chain takes at most (#answers + 1) rounds — CNAME loops end with `NoAnswer`.
-  FULL STATEMENT kept visible — `rrset_refines : Layout msg m → m.WF → gates m → fromMsg D msg = chain m.answers m.q`
-  (equality with the abstract CNAME-chain specification on the decoded message, order of records
-  included). That is decided on the implementation by an independent reference computed by the generator
-  on the semantic message (harness: `reference_rrset`, oracle `rrset_truth_oracle`) and tied to the model by
-  the `rrset` correspondence stream; it is not yet a theorem.
+  The FULL STATEMENT — `rrset_refines`: on every well-formed NOERROR response `from_msg` equals the
+  CNAME-chain specification `chainS` on the decoded message, order of records included — is proved in
+  Props/C06Refines.lean.  On the implementation an independent reference computed by the generator on the
+  semantic message (harness: `reference_rrset`, oracle `rrset_truth_oracle`) is the ground truth, tied to
+  the model by the `rrset` correspondence stream.
 -/
 import Rsdns.Model.RecordSet
 
